@@ -87,6 +87,17 @@ def rule_snapshot(ctx, R):
                     if not reaches_without(cfg, cfg.succ[bi], b2, cut_blocks=[x for x, _ in steps if x != bi]) is False:
                         pushed = True
         R.check(pushed, "snapshot:pushed:%d" % i, "the state after the step is pushed as a new history entry", t["span"]["at"])
+    # the history starts with the initial state at command 0
+    firsts = []
+    for bi_, blk in enumerate(b.blocks):
+        if blk["cleanup"]:
+            continue
+        for si_, st in enumerate(blk["stmts"]):
+            if st["k"] == "assign" and st["r"]["k"] == "agg" and st["r"].get("agg") == "tuple" and len(st["r"]["fields"]) == 2 and b.lty(st["p"]["l"]).startswith("(core::state::UnOptState, usize)"):
+                f0, f1 = st["r"]["fields"]
+                if f1.get("k") == "const":
+                    firsts.append((roles.of_operand(f0, bi_, si_), int(f1["int"])))
+    R.check(firsts == [("UnOptState::new()", 0)], "snapshot:initial", "the history starts with one entry: a fresh state, about to execute command 0: %s" % firsts, b.span)
     # the history vector is only touched through push / pop / last / len
     allowed = {"std::vec::Vec::push", "std::vec::Vec::pop", "[T]::last", "std::vec::Vec::len", "core::ops::deref::Deref::deref", "core::slice::<impl [T]>::last"}
     used = {}
@@ -417,6 +428,14 @@ def rule_bp_exact(ctx, R):
         return
     R.check(not any(reaches_without(cfg, [yes[0][1]], s_, cut_blocks=[head] + reads) for s_ in steps), "bp:stop_is_unconditional",
             "when the newest position carries a breakpoint the run stops: no step is executed before control returns to the prompt", b.blocks[yes[0][0]]["term"]["span"]["at"])
+    # stopping means leaving the running mode: the flag is cleared on the way back to the prompt
+    flags_ = [l for l, d in enumerate(b.locals) if d["ty"] == "bool" and l in b.local_names()]
+    clears = []
+    for l in flags_:
+        for d in vars_.defs.get(l, []):
+            if d[0] == "assign" and d[3]["r"]["k"] == "use" and d[3]["r"]["x"].get("k") == "const" and str(d[3]["r"]["x"].get("int")) == "0" and d[1] in heads[head]:
+                clears.append(d[1])
+    R.check(bool(clears) and not reaches_without(cfg, [yes[0][1]], head, cut_blocks=clears), "bp:stop_clears_running", "when the run stops at a breakpoint the running flag is cleared before the main loop continues (otherwise no prompt is ever shown again)", b.blocks[yes[0][0]]["term"]["span"]["at"])
     R.check(not reaches_without(cfg, [no[0][1]], head, cut_blocks=steps), "bp:step_otherwise",
             "when it carries none, a step is executed before the next test", b.blocks[no[0][0]]["term"]["span"]["at"])
     # the running flag: the named bool local tested on the path to the breakpoint test
